@@ -2,6 +2,8 @@
 
 from __future__ import annotations
 
+import json
+import os
 import random
 
 from drivers import gwcommon as gc
@@ -9,6 +11,43 @@ from drivers import gwmodel, gwprograms
 from sim import gwrun
 
 LINE_FUNCS = ["_thread_receiver", "_finished_receiving", "_local_close", "_no_longer_opened", "from_io", "read"]
+
+
+def _loss_job(job):
+    import sys
+
+    sys.stderr = open(os.devnull, "w")
+    from real import loss_real
+
+    return loss_real.run_case(*job)
+
+
+def real_part(ctx):
+    """the worker process of a real popen / socket / via gateway is SIGKILLed in mid-conversation (also behind an execnet-less interpreter)"""
+    import multiprocessing as mp
+
+    from drivers import transport_common as tc
+    from mbt import batch
+
+    iso = [c for v, c in sorted(tc.ISOLATED.items()) if os.path.exists(c[0])]
+    jobs = [(kind, "thread", None) for kind in ("popen", "socket", "via")]
+    if iso:
+        jobs += [("via", "thread", iso[-1]), ("python", "thread", iso[0])]
+    if not ctx.quick:
+        jobs += [(kind, em, None) for kind in ("popen", "socket", "via") for em in ("main_thread_only",)] * 3 + jobs * 3
+    with mp.get_context("spawn").Pool(min(8, len(jobs)), maxtasksperchild=1) as pool:
+        outs = pool.map(_loss_job, jobs, chunksize=1)
+    fields = ("err", "blocked_done", "blocked_receive", "blocked_waitclose", "items", "later_receive", "receive_again", "later_waitclose", "callback",
+              "joined", "send", "remote_exec", "newchannel", "hasreceiver")
+    dflt = {"err": "", "blocked_done": False, "blocked_receive": "", "blocked_waitclose": "", "items": [], "later_receive": "", "receive_again": "",
+            "later_waitclose": "", "callback": [], "joined": False, "send": "", "remote_exec": "", "newchannel": "", "hasreceiver": True}
+    verdicts = batch.judge("LossCases", [{k: o.get(k, dflt[k]) for k in fields} for o in outs], ctx.scratch)
+    hist = {}
+    for o, vd in zip(outs, verdicts):
+        hist[vd] = hist.get(vd, 0) + 1
+        if vd != "ok":
+            ctx.violation(f"{vd}: {json.dumps(o)[:500]}", o)
+    return {"cases": len(outs), "kinds": sorted({o["kind"] for o in outs}), "verdict_histogram": hist}
 
 
 def run(ctx):
@@ -46,6 +85,8 @@ def run(ctx):
     res = gc.run_and_judge(ctx, jobs, ["C04.", "C02.", "C03.EOF", "C03.item", "C10.endmarker", "C10.callback", "C08.", "C07.remote-error-without"],
                            lambda evs: any(e["ev"] == "cut" for e in evs) and any(e["ev"] == "ret" and e["res"] == "EOF" for e in evs))
     gwrun.close_pool()
+    real = real_part(ctx)
+    ctx.coverage["real_transports"] = real
     ctx.coverage.update({
         "states": mc["states"], "transitions": mc["transitions"],
         "traces_validated_against_impl": res["distinct"], "evaluations": res["runs"], "distinct_nontrivial": res["nontrivial"],
